@@ -167,6 +167,10 @@ func (r *Runner) state() {
 		r.oracle("C04", "the device region of a block on the allocator's free list was accessed by a reader or writer that is still active", r.st.FreeHits[0])
 		r.st.FreeHits = nil
 	}
+	if r.st.Gate != nil && r.st.Gate.unlocked.Swap(0) > 0 {
+		r.oracle("C01", "a location looked up under the store's lock was opened after the lock had been released (an upload that rotates blocks in between makes it open another block)",
+			"a LocationBlobGetter was invoked while nobody held the lock")
+	}
 	r.m("state", r.st.State())
 }
 
@@ -558,7 +562,14 @@ func (r *Runner) get(obj int, mode string, hand ...*handover) {
 			defer r.startPut(hand[0].id, hand[0].obj, hand[0].ver, hand[0].chunking, hand[0].fault)
 		}
 	} else {
+		openBefore := r.st.RBF.Opened.Load() - r.st.RBF.Closed.Load()
 		kind, data = consumeMode(r.st.BA.Get(context.Background(), r.Digest(obj)), mode, int(r.Digest(obj).GetSizeBytes()))
+		if openAfter := r.st.RBF.Opened.Load() - r.st.RBF.Closed.Load(); openAfter > openBefore {
+			// every way of consuming (or discarding) the buffer returns only when the readers it opened are closed,
+			// including those of a refresh copy running as its background task
+			r.oracle("C04", "a read returned to its caller while a block reader it had opened was still open",
+				fmt.Sprintf("Get of object %d consumed as %q: %d reader(s) open before the call, %d right after it", obj, mode, openBefore, openAfter))
+		}
 	}
 	if strings.HasPrefix(kind, "partial ") {
 		// a range of the object was read: judge the bytes here, then treat it like a read of the whole object
@@ -823,6 +834,18 @@ func (r *Runner) findMissing(objs []int) {
 					}
 				}
 				r.noteTouch(o, newsAtStart, discardsAtStart)
+				if r.mustSurvive(o) {
+					stored := false
+					if r.hier() {
+						stored = r.storedUnderPrefix(o)
+					} else {
+						_, stored = r.location(o)
+					}
+					if !stored {
+						r.oracle("C05", "an object that was just read or reported present was lost before old_blocks+1 further blocks were allocated",
+							fmt.Sprintf("FindMissing reports object %d present, but it does not resolve when the call returns (touched at %d blocks, now %d)", o, r.touched[o], r.st.Alloc.News.Load()))
+					}
+				}
 			}
 		}
 	} else if Code(err) == "err integrity" && r.corrupted {
@@ -866,6 +889,7 @@ func (r *Runner) startComp(id, parent, child int) {
 	}
 	// parked in the slicer: the model must be in its slicing state too
 	reply := r.m(line, "-")
+	op.compRefreshed = strings.HasPrefix(reply, "slice refresh")
 	if r.model != nil && !strings.HasPrefix(reply, "slice") {
 		r.cmp(reply, "parked in slicer", "fcomp.begin")
 	}
@@ -883,6 +907,18 @@ func (r *Runner) checkComp(op *pendingOp, e event) {
 		for o := range r.objs {
 			if r.Digest(o) == r.Digest(parent) {
 				r.noteTouch(o, op.newsAtStart, op.discardsAtStart)
+			}
+		}
+		if op.compRefreshed {
+			// the parent was refreshed by this call and its slices were registered inside the new copy, which is newer
+			// than anything else: the children survive like the parent
+			for _, c := range r.objs[parent].Children {
+				cd := CASDigest(r.objs[parent].Instance, r.Content(c))
+				for o := range r.objs {
+					if r.Digest(o) == cd {
+						r.noteTouch(o, op.newsAtStart, op.discardsAtStart)
+					}
+				}
 			}
 		}
 		// slicing makes the children addressable on their own, under the parent's instance name
@@ -1224,7 +1260,7 @@ func (r *Runner) newestLocation(obj int) (int64, bool) {
 // (every way of consuming the data must fail with INTERNAL, also one that asks for a part the flipped byte is not in).
 func (r *Runner) corruptingRead(obj int) string {
 	mode := r.corruptMode
-	if !strings.Contains("srcwaqdD", mode) || len(mode) != 1 {
+	if !strings.Contains("srcwaqdDk", mode) || len(mode) != 1 {
 		mode = "s"
 	}
 	kind, _ := consumeMode(r.st.BA.Get(context.Background(), r.Digest(obj)), mode, int(r.Digest(obj).GetSizeBytes()))
